@@ -14,7 +14,7 @@ use crate::mon_c01::check_partition;
 use crate::normref::{self, RewriteTable};
 use crate::report::{clip, guard, Report};
 use crate::rng::{fnv, Rng};
-use crate::scen::{build_world, build_world_from, observe, PluginOpts, Tok, World, MODES};
+use crate::scen::{build_world_from, observe, PluginOpts, Tok, World, MODES};
 use crate::textgen;
 use crate::Ctx;
 
@@ -23,6 +23,11 @@ const MAX_NORM: usize = 65535;
 
 fn touch_everything(t: &Tok, text: &str, internal_cost: bool) -> Result<(usize, usize), String> {
     let obs = observe(&t.list);
+    if obs.is_empty() && t.normalized.is_empty() {
+        // an input whose normalised form is empty yields no morphemes
+        let _ = t.list.surface().len();
+        return Ok((0, 0));
+    }
     if let Some(m) = check_partition(text, &obs, 0, text.len()) {
         return Err(format!("successful result is not a partition of the input (truncated?): {}", m));
     }
@@ -139,6 +144,14 @@ fn hostile_text(rng: &mut Rng, keys: &[String]) -> String {
             c.repeat(1 + rng.below(150))
         }
         4 => String::new(),
+        5 => {
+            // only prolonged sound marks / brackets: candidates for a normalised text that is empty
+            let mut s = String::new();
+            for _ in 0..1 + rng.below(6) {
+                s.push_str(rng.s(&["ー", "-", "⁓", "〜", "〰", "~", "ｰ", "!", "っ", "(", ")", "京"]));
+            }
+            s
+        }
         _ => textgen::text_from_keys(rng, keys, 10),
     }
 }
@@ -256,6 +269,10 @@ pub fn run(ctx: &Ctx, rep: &mut Report) {
     };
     let std_table = RewriteTable::parse(&std::fs::read_to_string(crate::env::repo_root().join("resources/rewrite.def")).unwrap_or_default());
     let mut hooks = sudachi::verif::counters();
+    if !small {
+        // the debug dumps of the tokenizer go to standard output: not needed (the report is written to --out)
+        crate::env::silence_stdout();
+    }
     for wi in ctx.indices(n_worlds) {
         if ctx.out_of_time() {
             rep.notes.push(format!("stopped at world {} (time budget)", wi));
@@ -279,7 +296,9 @@ pub fn run(ctx: &Ctx, rep: &mut Report) {
                 build_world_from(&mut rng, &dopts, matrix, sys, p, place)
             })
         } else {
-            guard(|| build_world(&mut rng, &dopts, None, true, place))
+            // every third world: unusual settings of the input-text plugins (empty / longer replacement ...)
+            let odd_cfg = wi % 3 == 1;
+            guard(|| crate::scen::build_world_tweak(&mut rng, &dopts, true, place, |r, p| if odd_cfg { p.randomize_input_cfg(r) }))
         };
         let world = match built {
             Ok(Ok(w)) => w,
@@ -362,6 +381,25 @@ pub fn run(ctx: &Ctx, rep: &mut Report) {
                     rep.count("long_inputs_handled", 1);
                 }
                 rep.nontrivial(fnv(format!("{}|{}|{}", wi, mi, if text.len() < 500 { text.clone() } else { format!("{}:{:x}", text.len(), fnv(text.as_bytes())) }).as_bytes()));
+            }
+        }
+        // a tokenizer with the debug flag on (what the CLI's --debug and the Python debug option use): the lattice and
+        // path dumps walk internal state that ordinary analysis never reads; reused for inputs of varying length
+        if !small && !limits {
+            let dmode = MODES[rng.below(3)];
+            let mut dt = Tok::new(&world.dict, dmode);
+            dt.tok.set_debug(true);
+            let mut lens = [12usize, 3, 7, 0, 1, 9];
+            rng.shuffle(&mut lens);
+            for (k, n) in lens.iter().enumerate() {
+                let full = hostile_text(&mut rng, &keys);
+                let text: String = full.chars().take(*n).collect();
+                let scen = || json!({"world_index": wi, "debug_tokenizer": true, "debug_text_index": k, "text": text, "mode": crate::scen::mode_name(dmode), "world": world.describe(true)});
+                if run_text(&world, &mut dt, dmode, &text, Some(true), "", rep, &scen) {
+                    rep.count("debug_mode_analyses", 1);
+                } else {
+                    dt.tok.set_debug(true);
+                }
             }
         }
         hooks = check_hooks(hooks, rep, "", json!({"world_index": wi, "world": world.describe(true)}));
